@@ -56,8 +56,9 @@ var pathNames = [numPaths]string{
 }
 
 type pathResult struct {
-	rows []parquet.Row
-	err  string // error or panic text
+	rows    []parquet.Row
+	err     string // error or panic text
+	skipped bool   // the path was switched off after it hung
 }
 
 type cat struct {
@@ -104,17 +105,57 @@ func mk[T any](name string, opts ...catOpt) *cat {
 	return c
 }
 
-func guard(f func() ([]parquet.Row, error)) (res pathResult) {
-	defer func() {
-		if r := recover(); r != nil {
-			res = pathResult{err: fmt.Sprintf("panic: %v", r)}
+// pathTimeout bounds one path on one batch (a path normally takes
+// milliseconds): a path that does not return is reported instead of hanging
+// the run.  The abandoned goroutine keeps spinning, so a path that hung is
+// switched off for the rest of the run once the case has been reported.
+const pathTimeout = 6 * time.Second
+
+var (
+	hangs        int              // number of timeouts seen so far
+	pathDisabled [numPaths]bool   // paths switched off after a reported hang
+	hungPaths    = map[int]bool{} // paths that timed out in the case being checked
+	curPath      = -1
+)
+
+func guard(f func() ([]parquet.Row, error)) pathResult {
+	ch := make(chan pathResult, 1)
+	go func() {
+		var res pathResult
+		defer func() {
+			if r := recover(); r != nil {
+				res = pathResult{err: fmt.Sprintf("panic: %v", r)}
+			}
+			ch <- res
+		}()
+		rows, err := f()
+		if err != nil {
+			res = pathResult{rows: rows, err: err.Error()}
+			return
 		}
+		res = pathResult{rows: rows}
 	}()
-	rows, err := f()
-	if err != nil {
-		return pathResult{rows: rows, err: err.Error()}
+	select {
+	case res := <-ch:
+		return res
+	case <-time.After(pathTimeout):
+		hangs++
+		if curPath >= 0 {
+			hungPaths[curPath] = true
+		}
+		return pathResult{err: fmt.Sprintf("did not return within %v (endless loop)", pathTimeout)}
 	}
-	return pathResult{rows: rows}
+}
+
+// guardPath runs path p unless it was switched off
+func guardPath(p int, f func() ([]parquet.Row, error)) pathResult {
+	if pathDisabled[p] {
+		return pathResult{skipped: true}
+	}
+	curPath = p
+	res := guard(f)
+	curPath = -1
+	return res
 }
 
 func readAll(rows parquet.Rows) ([]parquet.Row, error) {
@@ -184,7 +225,7 @@ func execPaths[T any](schema *parquet.Schema, rows []T, split []int) (res [numPa
 	n := len(rows)
 	bs := batches(n, split)
 	// 1: Schema.Deconstruct
-	res[0] = guard(func() ([]parquet.Row, error) {
+	res[0] = guardPath(0, func() ([]parquet.Row, error) {
 		out := make([]parquet.Row, n)
 		for i := range rows {
 			if i%2 == 0 {
@@ -196,7 +237,7 @@ func execPaths[T any](schema *parquet.Schema, rows []T, split []int) (res [numPa
 		return out, nil
 	})
 	// 2: typed GenericWriter
-	res[1] = guard(func() ([]parquet.Row, error) {
+	res[1] = guardPath(1, func() ([]parquet.Row, error) {
 		var buf bytes.Buffer
 		w := parquet.NewGenericWriter[T](&buf)
 		for _, b := range bs {
@@ -210,7 +251,7 @@ func execPaths[T any](schema *parquet.Schema, rows []T, split []int) (res [numPa
 		return readFile(buf.Bytes())
 	})
 	// 3: deprecated Writer.Write(any)
-	res[2] = guard(func() ([]parquet.Row, error) {
+	res[2] = guardPath(2, func() ([]parquet.Row, error) {
 		var buf bytes.Buffer
 		w := parquet.NewWriter(&buf, schema)
 		for i := range rows {
@@ -230,7 +271,7 @@ func execPaths[T any](schema *parquet.Schema, rows []T, split []int) (res [numPa
 		return readFile(buf.Bytes())
 	})
 	// 4: typed GenericBuffer
-	res[3] = guard(func() ([]parquet.Row, error) {
+	res[3] = guardPath(3, func() ([]parquet.Row, error) {
 		buf := parquet.NewGenericBuffer[T]()
 		for _, b := range bs {
 			if k, err := buf.Write(rows[b[0]:b[1]]); err != nil || k != b[1]-b[0] {
@@ -240,7 +281,7 @@ func execPaths[T any](schema *parquet.Schema, rows []T, split []int) (res [numPa
 		return readAll(buf.Rows())
 	})
 	// 5: Buffer.Write(any)
-	res[4] = guard(func() ([]parquet.Row, error) {
+	res[4] = guardPath(4, func() ([]parquet.Row, error) {
 		buf := parquet.NewBuffer(schema)
 		for i := range rows {
 			var err error
@@ -256,7 +297,7 @@ func execPaths[T any](schema *parquet.Schema, rows []T, split []int) (res [numPa
 		return readAll(buf.Rows())
 	})
 	// 6: RowBuffer
-	res[5] = guard(func() ([]parquet.Row, error) {
+	res[5] = guardPath(5, func() ([]parquet.Row, error) {
 		buf := parquet.NewRowBuffer[T]()
 		for _, b := range bs {
 			if k, err := buf.Write(rows[b[0]:b[1]]); err != nil || k != b[1]-b[0] {
@@ -267,7 +308,7 @@ func execPaths[T any](schema *parquet.Schema, rows []T, split []int) (res [numPa
 	})
 	base := res[0].rows
 	// 7: WriteRows of pre-shredded rows
-	res[6] = guard(func() ([]parquet.Row, error) {
+	res[6] = guardPath(6, func() ([]parquet.Row, error) {
 		if res[0].err != "" {
 			return nil, fmt.Errorf("no deconstructed rows")
 		}
@@ -288,7 +329,7 @@ func execPaths[T any](schema *parquet.Schema, rows []T, split []int) (res [numPa
 		return readFile(buf.Bytes())
 	})
 	// 8: per-column writers
-	res[7] = guard(func() ([]parquet.Row, error) {
+	res[7] = guardPath(7, func() ([]parquet.Row, error) {
 		if res[0].err != "" {
 			return nil, fmt.Errorf("no deconstructed rows")
 		}
@@ -321,7 +362,7 @@ func execPaths[T any](schema *parquet.Schema, rows []T, split []int) (res [numPa
 		return readFile(buf.Bytes())
 	})
 	// 9: GenericWriter[any] with the schema (writeValueFuncOf path)
-	res[8] = guard(func() ([]parquet.Row, error) {
+	res[8] = guardPath(8, func() ([]parquet.Row, error) {
 		var buf bytes.Buffer
 		w := parquet.NewGenericWriter[any](&buf, schema)
 		for _, b := range bs {
@@ -345,7 +386,7 @@ func execPaths[T any](schema *parquet.Schema, rows []T, split []int) (res [numPa
 	// 10: typed GenericBuffer, then the rows are reversed through the buffer's
 	// Swap (sort.Interface) before they are read: the row -> value bookkeeping
 	// of the column buffers must describe the rows that were written
-	res[9] = guard(func() ([]parquet.Row, error) {
+	res[9] = guardPath(9, func() ([]parquet.Row, error) {
 		buf := parquet.NewGenericBuffer[T]()
 		for _, b := range bs {
 			if k, err := buf.Write(rows[b[0]:b[1]]); err != nil || k != b[1]-b[0] {
@@ -361,7 +402,7 @@ func execPaths[T any](schema *parquet.Schema, rows []T, split []int) (res [numPa
 		return readAll(buf.Rows())
 	})
 	// 11: Buffer.Write(any), reversed the same way
-	res[10] = guard(func() ([]parquet.Row, error) {
+	res[10] = guardPath(10, func() ([]parquet.Row, error) {
 		buf := parquet.NewBuffer(schema)
 		for i := range rows {
 			if err := buf.Write(&rows[i]); err != nil {
@@ -937,7 +978,7 @@ func checkCase(c *core.Ctx, ct *cat, rows reflect.Value, split []int, wantVm boo
 	replay := func() any { return mkReplay(ct, rows, split) }
 	ok := true
 	for p, r := range res {
-		if r.err != "" {
+		if r.err != "" && !r.skipped {
 			c.Violation("path-error:"+ct.name, fmt.Sprintf("type %s, %d rows: path %s failed: %s", ct.name, n, pathNames[p], r.err), replay())
 			ok = false
 		}
@@ -947,6 +988,10 @@ func checkCase(c *core.Ctx, ct *cat, rows reflect.Value, split []int, wantVm boo
 	}
 	canon := make([][][]entry, numPaths)
 	for p, r := range res {
+		if r.skipped {
+			canon[p] = nil
+			continue
+		}
 		if len(r.rows) != n {
 			c.Violation("row-count-differs:"+ct.name, fmt.Sprintf("type %s: path %s returned %d rows for %d written", ct.name, pathNames[p], len(r.rows), n), replay())
 			return false
@@ -966,6 +1011,9 @@ func checkCase(c *core.Ctx, ct *cat, rows reflect.Value, split []int, wantVm boo
 		text = rowTextUnordered
 	}
 	for p := 1; p < numPaths; p++ {
+		if canon[p] == nil {
+			continue
+		}
 		for i := 0; i < n; i++ {
 			a, b := text(canon[0][i]), text(canon[p][i])
 			if a != b {
@@ -1089,10 +1137,24 @@ func checkCase(c *core.Ctx, ct *cat, rows reflect.Value, split []int, wantVm boo
 // runCase checks a batch; a failing batch is shrunk (fewer rows, then simpler
 // values) before it is reported.
 func runCase(c *core.Ctx, ct *cat, rows reflect.Value, split []int, bucket string, wantVm bool) bool {
+	for k := range hungPaths {
+		delete(hungPaths, k)
+	}
+	h0 := hangs
 	failed := c.Probe(func() { checkCase(c, ct, rows, split, false) })
 	if failed {
+		shrinkBudget = 400
+		if hangs > h0 {
+			shrinkBudget = 12 // every probe of a hanging case costs the timeout
+		}
 		min, msplit := shrinkCase(c, ct, rows, split)
 		checkCase(c, ct, min, msplit, false)
+		for p := range hungPaths {
+			if !pathDisabled[p] {
+				pathDisabled[p] = true
+				c.Note("path %s did not return on a %s batch (reported); it is switched off for the rest of the run", pathNames[p], ct.name)
+			}
+		}
 	} else if wantVm {
 		checkCase(c, ct, rows, split, true)
 	}
@@ -1100,6 +1162,8 @@ func runCase(c *core.Ctx, ct *cat, rows reflect.Value, split []int, bucket strin
 	c.Case(bucket, ct.name+fmt.Sprint(split)+string(key), rows.Len() >= 2)
 	return !failed
 }
+
+var shrinkBudget = 400
 
 func sliceWithout(v reflect.Value, start, count int) reflect.Value {
 	out := reflect.MakeSlice(v.Type(), 0, v.Len()-count)
@@ -1109,7 +1173,7 @@ func sliceWithout(v reflect.Value, start, count int) reflect.Value {
 }
 
 func shrinkCase(c *core.Ctx, ct *cat, rows reflect.Value, split []int) (reflect.Value, []int) {
-	budget := 400
+	budget := shrinkBudget
 	fails := func(r reflect.Value, sp []int) bool {
 		if budget <= 0 {
 			return false
@@ -1542,7 +1606,7 @@ func runC03(c *core.Ctx) {
 
 	// generated batches
 	sizes := []int{1, 2, 3, 5, 8, 9, 15, 16, 17, 33, 63, 64, 65, 66, 100, 127, 128, 129, 130, 131, 192, 200}
-	perType := c.N(14, 0)
+	perType := c.N(30, 0)
 	for ti, ct := range cats {
 		rng := rand.New(rand.NewSource(c.Rng.Int63()))
 		if c.Quick() {
